@@ -60,6 +60,7 @@ type Runner struct {
 	inWait   bool
 	noMerge  bool
 	csEvaluated map[string]bool // critical-section clauses evaluated on at least one path
+	beforeHit   map[string]bool // call-site clauses (before CALLEE ...) that met a call on at least one path
 }
 
 type LoopInfo struct {
@@ -138,7 +139,7 @@ func (r *Runner) oblige(st *State, kind, label string, goal Term, pos token.Pos)
 		// contract-level obligations that fold to true are still recorded (discharged syntactically),
 		// so that they are part of the baseline and a change that makes them non-trivial is noticed
 		switch kind {
-		case "post", "pre", "cs", "inv-init", "inv-step", "stable", "lockinv", "decr", "signal", "lostwakeup":
+		case "post", "pre", "cs", "before", "inv-init", "inv-step", "stable", "lockinv", "decr", "signal", "lostwakeup":
 			n := r.curName + "#" + kind
 			if label != "" {
 				n += "[" + label + "]"
